@@ -88,6 +88,14 @@ def depth_doc(k, n, quad_cap=3000):
         # outer lists must not multiply the work at every level
         m = min(n, 90)
         return r("<svg>" + '<g><rect wh="1"/>' * m + '<rect xy="#nowhere|h" wh="1"/>' + "</g>" * m + "</svg>")
+    if k == "retry-nested-ws":
+        # the same with indentation: the text between elements is a tag of the retry loop too
+        m = min(n, 90)
+        return r("<svg>" + "\n <g>\n  " * m + '<rect xy="#nowhere|h" wh="1"/>' + "\n </g>\n" * m + "</svg>")
+    if k == "retry-siblings":
+        # many failing containers side by side: none of them may keep the others retrying
+        m = min(n, 400)
+        return r("<svg>" + '<g><rect wh="1"/><rect xy="#nowhere|h" wh="1"/></g>' * m + "</svg>")
     if k == "ref-cycle":
         m = max(2, min(n, 2000))
         return r("<svg>" + "".join(f'<rect id="c{i}" xy="#c{(i + 1) % m}|h 1" wh="1"/>' for i in range(m)) + "</svg>")
